@@ -55,6 +55,11 @@ type Link struct {
 	S2CCuts   int // deliveries that ended inside a frame
 	Delivered int
 	lastPending int
+	AcceptedAt         time.Time
+	ClientClosedAt     time.Time // when the server side noticed that the client had closed the connection
+	UndeliveredAtClose int       // reply bytes the server still had to deliver at that moment
+	EndedAt            time.Time // when the connection ended, whoever ended it
+	UndeliveredAtEnd   int       // reply bytes that were never delivered
 }
 
 // Parked is a goroutine waiting at a yield point.
@@ -580,7 +585,7 @@ func (s *Sim) decideDial(d *simnet.Dial) {
 		if c == nil {
 			return
 		}
-		l := &Link{ID: c.ID, C: c, S: s.W.Accept(d.Addr, c.ID), CutAfter: -1}
+		l := &Link{ID: c.ID, C: c, S: s.W.Accept(d.Addr, c.ID), CutAfter: -1, AcceptedAt: time.Now()}
 		s.Links = append(s.Links, l)
 		s.logf("  accept c%d -> %s", c.ID, d.Addr)
 		if s.OnAccept != nil {
@@ -632,6 +637,9 @@ func (s *Sim) doS2C(l *Link) {
 
 // closeServerSide: the server notices that the client closed the connection.
 func (s *Sim) closeServerSide(l *Link) {
+	l.ClientClosedAt = time.Now()
+	l.UndeliveredAtClose = len(l.S.Out)
+	l.EndedAt, l.UndeliveredAtEnd = time.Now(), len(l.S.Out)
 	l.SrvClosed = true
 	l.Dead = true
 	s.W.CloseConn(l.S)
@@ -647,6 +655,11 @@ func (s *Sim) breakLink(l *Link, kind string, execFirst bool) {
 	if l.Dead || l.SrvClosed {
 		return
 	}
+	if l.C.ClientClosed() && l.ClientClosedAt.IsZero() {
+		// the client had already closed its end; the server just had not noticed yet
+		l.ClientClosedAt = time.Now()
+		l.UndeliveredAtClose = len(l.S.Out)
+	}
 	if execFirst {
 		if b := l.C.TakeWritten(0); len(b) > 0 {
 			s.W.Step = s.Step
@@ -660,6 +673,7 @@ func (s *Sim) breakLink(l *Link, kind string, execFirst bool) {
 	if len(l.S.Out) > 0 {
 		s.Stats["fault.lost_reply_bytes"] += len(l.S.Out)
 	}
+	l.EndedAt, l.UndeliveredAtEnd = time.Now(), len(l.S.Out)
 	l.S.Out = nil
 	l.SrvClosed = true
 	l.Dead = true
@@ -759,6 +773,7 @@ func (s *Sim) applyFault(f *Fault) bool {
 		f.Target = fmt.Sprintf("c%d", l.ID)
 		l.C.FailWrite(simnet.ErrPipe)
 		l.C.FailRead(io.EOF)
+		l.EndedAt, l.UndeliveredAtEnd = time.Now(), len(l.S.Out)
 		l.S.Out = nil
 		l.SrvClosed, l.Dead = true, true
 		s.W.CloseConn(l.S)
